@@ -314,6 +314,12 @@ class TaskMappingSpec(native_v1_specs.MappingSpec):
             if next_task_name in traversed:
                 continue
 
+            # If the next task is not defined, then there is nothing to traverse.
+            # The undefined task is reported separately on inspection.
+            if not self.has_task(next_task_name):
+                traversed.append(next_task_name)
+                continue
+
             for task in self.get_next_tasks(next_task_name):
                 q.put(task[0])
 
